@@ -23,6 +23,9 @@ type c13Case struct {
 	Grouped  bool        `json:"grouped,omitempty"`
 	Choices  []int       `json:"choices"` // drives the construction of the expression from the rows without HAVING
 	Excluded []string    `json:"excluded,omitempty"`
+	// ConstFirst: bit i set = the i-th constant comparison is written `constant op binding`
+	// (the grammar admits it; the expression builder may reject it, it must not misread it)
+	ConstFirst uint `json:"const_first,omitempty"`
 }
 
 func genC13(t *rapid.T) c13Case {
@@ -69,12 +72,17 @@ func genC13(t *rapid.T) c13Case {
 	for i := 0; i < 40; i++ {
 		c.Choices = append(c.Choices, gen.Uniform(t, 1000, "choice"))
 	}
+	if gen.Maybe(t, 12, "constfirst") {
+		c.ConstFirst = 1 << uint(gen.Uniform(t, 4, "constfirstbit"))
+	}
 	return c
 }
 
 type chooser struct {
-	c []int
-	i int
+	c          []int
+	i          int
+	constFirst uint
+	nconst     uint
 }
 
 func (ch *chooser) n(k int) int {
@@ -223,6 +231,8 @@ func c13Cmp(ch *chooser, V []bq.Env, cols []string, kinds map[string]map[string]
 	}
 	if e.RB == "" {
 		c13Const(ch, V, col, e)
+		e.Swap = ch.constFirst&(1<<ch.nconst) != 0
+		ch.nconst++
 	}
 	ops := []string{"=", "<", ">"}
 	// only "=" is defined for node / predicate constants and for bool / blob literals
@@ -308,7 +318,11 @@ func refEval(e *bq.Expr, r bq.Env) (val bool, mismatch bool, exempt bool) {
 	if lv.Kind == 0 || lv.SubKind() != rv.SubKind() {
 		return false, true, false
 	}
-	switch e.Cmp {
+	cmp := e.Cmp
+	if e.Swap { // `constant op binding` means `binding mirrored-op constant`
+		cmp = map[string]string{"=": "=", "<": ">", ">": "<"}[cmp]
+	}
+	switch cmp {
 	case "=":
 		if lv.Kind == 'L' && (lv.L.Kind == "int64" || lv.L.Kind == "float64" || lv.L.Kind == "text") {
 			c, _ := bq.CompareSameKind(lv, rv, false)
@@ -320,7 +334,7 @@ func refEval(e *bq.Expr, r bq.Env) (val bool, mismatch bool, exempt bool) {
 		if !ok {
 			return false, true, false
 		}
-		if e.Cmp == "<" {
+		if cmp == "<" {
 			return c < 0, false, false
 		}
 		return c > 0, false, false
@@ -365,7 +379,7 @@ func checkC13(ctx *pbt.Ctx, c c13Case) error {
 	V := rowEnvs(bres)
 	cols := outCols(base)
 	kinds := bq.BindingKinds(V)
-	ch := &chooser{c: c.Choices}
+	ch := &chooser{c: c.Choices, constFirst: c.ConstFirst}
 	expr := c13Expr(ch, V, cols, kinds, 2)
 	full := base
 	full.Having = expr
@@ -382,8 +396,15 @@ func checkC13(ctx *pbt.Ctx, c c13Case) error {
 		return fmt.Errorf("%q panicked: %s", text, res.Panic)
 	}
 	if res.Stage == "parse" {
-		ctx.Label("rejected-by-parser")
+		if c.ConstFirst != 0 && ch.nconst > 0 {
+			ctx.Label("rejected-by-parser(constant-first comparison)")
+		} else {
+			ctx.Label("rejected-by-parser")
+		}
 		return nil
+	}
+	if c.ConstFirst != 0 {
+		ctx.Label("constant-first comparison accepted")
 	}
 	var want []bq.Env
 	anyMismatch, anyExempt := false, false
